@@ -175,8 +175,9 @@ def handle : List String → String
     | some (d, root) =>
       let U := toUniverse d
       match Resolve U root with
-      | .graph _ S ids => "ok late=" ++ b01 (!noLateExtras U S) ++ " route=" ++ b01 (!routeClosed S ids)
-      | _ => "ok late=0 route=0"
+      | .graph _ S ids => "ok late=" ++ b01 (!noLateExtras U S) ++ " route=" ++ b01 (!routeClosed S ids) ++
+          " stale=" ++ b01 (!noStale S ids)
+      | _ => "ok late=0 route=0 stale=0"
   | _ => "bad-op"
 
 end C08Drv
